@@ -16,6 +16,7 @@ package api
 //                            over a batch
 //     r:<k>                  client receives up to k messages (k=0: as many as there are) until the
 //                            handler is parked in GetNext with nothing in flight
+//     w:<node>               another reader walks the node's whole stream (fills and trims the batch cache)
 //     x                      client disconnects (context cancelled, InterruptGetNext); what is in
 //                            flight is lost
 //   result: res {a=ok|d=ok|c=ok|x=ok|r=<id.reply/hex{,..}|->}* last=<id>.<reply>
@@ -424,6 +425,28 @@ loop:
 			} else {
 				out = append(out, "c=ok")
 			}
+		case "w":
+			// warm-up: another reader (think of the other sessions' GetMessages requests) walks the
+			// node's whole stream, so that the stream's batch cache is filled and trimmed
+			o := node(p[1])
+			done, _ := verifResGuard(30*time.Second, func() {
+				cctx, ccancel := context.WithCancel(context.Background())
+				ccancel()
+				cur := uint64(0)
+				for n := 0; n < 1000000; n++ {
+					msgs := o.GetNext(cctx, robust.Id{Id: cur})
+					if len(msgs) == 0 || msgs[0].Id.Id <= cur {
+						break
+					}
+					cur = msgs[0].Id.Id
+				}
+			})
+			if !done {
+				out = append(out, "w=deadlock")
+				poisoned = true
+				break loop
+			}
+			out = append(out, "w=ok")
 		case "x":
 			if hasPaniced() {
 				out = append(out, p[0]+"=handler-panic")
